@@ -38,7 +38,6 @@ U128S = '0102030405060708090a0b0c0d0e0f10'
 U128C = '1112131415161718191a1b1c1d1e1f20'
 U128X = 'f1f2f3f4f5f6f7f8f9fafbfcfdfeff00'  # absent
 BASE128 = bytes.fromhex('FB349B5F800000800010000000000000')  # Bluetooth base UUID, little-endian, without the 16-bit part
-SERVER_RX_MTU = 517
 QUICK_MTUS = [23, 24, 48, 185, 517]
 
 
@@ -520,6 +519,12 @@ def run_config(aw, st, cfg, found):
         elif A.classify_opcode(op) != 'request':
             for check, extra, msg in judge([pdu], rep, mtu):
                 found.add(check, dict(extra, bearer=kind), f'{where} {msg}', dict(base_case, mode='single', pdus=[pdu.hex()]))
+        if op == 0x02 and kind == 'att' and len(pdu) == 3 and len(rep) == 1 and len(rep[0]) == 3 and rep[0][0] == 0x03:
+            # the ATT_MTU now in force must be min(client rx, server rx) (a client value below 23 is invalid: unchanged or 23)
+            m, srv_rx = pdu[1] | pdu[2] << 8, rep[0][1] | rep[0][2] << 8
+            ok_vals = {min(m, srv_rx)} if m >= 23 else {mtu, 23}
+            if aw.s_conn.att_mtu not in ok_vals:
+                found.add('mtu_state', {'bearer': 'att'}, f'{where} after Exchange MTU client={m} server={srv_rx} the bearer ATT_MTU is {aw.s_conn.att_mtu}', {'mode': 'mtu_state', 'mtu': m})
         if op in MUTATING:
             restore()
     if aw.sync_errors:
@@ -883,8 +888,15 @@ def request_configs(quick):
                 else:
                     n = {'many': 70 if mtu > 60 else 16, 'svcs': 90 if mtu > 60 else 12}.get(shape, 0)
                     prots = [None] + (list(range(npos)) if mtu % 16 == 7 else [0] if shape == 'std' else [])
+                if quick and bearer == 'eatt':
+                    # the protected-position and value-length dimensions do not depend on the bearer: EATT gets the
+                    # packing-boundary lengths and the first protected position
+                    prots = prots[:2]
+                    lens_b = sorted({0, 1, (mtu - 6) // 2 + 1, (mtu - 4) // 2, (mtu - 1) // 2 + 1, mtu - 3, mtu - 2, 512})
+                else:
+                    lens_b = lens
                 for prot in prots:
-                    for L in ([0] if shape == 'svcs' else lens if prot is None and (q or shape in ('std', 'many')) else few):
+                    for L in ([0] if shape == 'svcs' else lens_b if prot is None and (q or shape in ('std', 'many')) else few):
                         if not q:
                             groups, pairs = SIZE_GROUPS, False
                         else:
@@ -999,7 +1011,7 @@ def run(ctx: core.Context) -> int:
     if want('seams'):
         items = []
         for mtu in ([23, 185] if quick else QUICK_MTUS):
-            for shape in ('std', 'dyn', 'raw'):
+            for shape in ('std', 'dyn', 'raw') if (not quick or mtu == 23) else ('std',):
                 items.append((shape, value_lengths(mtu)[-4], 0 if shape != 'dyn' else None, 0, mtu, tuple(g for g in ALL_GROUPS if g != 'sweep') if quick else ALL_GROUPS))
         st = ctx.sub('seams')
         for r in core.pmap(w_seams, items, ctx.jobs):
@@ -1053,9 +1065,16 @@ def replay_one(check, c):
         with A.AttWorld() as aw:
             aw.set_database(shape_spec('std', 1, None, 0))
             st = core.Stats('replay')
-            bearer_for(aw, 'att', c['mtu'], st)
-            bearer_for(aw, 'eatt', c['mtu'], st)
-            msgs += [x.message for x in st.violations]
+            m = c['mtu']
+            if m >= 23:
+                bearer_for(aw, 'att', m, st)
+                if m in QUICK_MTUS:
+                    bearer_for(aw, 'eatt', m, st)
+                msgs += [x.message for x in st.violations]
+            else:
+                aw.inject('att', A.req_exchange_mtu(m))
+                if aw.s_conn.att_mtu != 23:
+                    msgs.append(f'after Exchange MTU client={m} the bearer ATT_MTU is {aw.s_conn.att_mtu}')
     elif mode == 'notify':
         st = w_notify([(c['mtu'], [c['L']])])
         close_world()
